@@ -1080,16 +1080,18 @@ static std::string bf_line(Line const& l)
             if (act == "move") { auto g2 = std::move(g); return run(g2); }
             return run(g);
         };
-        // a bound argument: the object as lvalue (bl=1) / rvalue (bl=0), or ref(object) when br[i]=1
+        // a bound argument: the instrumented object as lvalue (bl=1) / rvalue (bl=0), or ref(int object) when br[i]=1
+        // (a plain int referent: an implementation that unwraps the reference_wrapper into T& still compiles and is told apart by the log)
+        int i0 = b.size() > 0 ? static_cast<int>(b[0]) : 0, i1 = b.size() > 1 ? static_cast<int>(b[1]) : 0;
         auto r0 = br.size() > 0 && br[0] == 1, r1 = br.size() > 1 && br[1] == 1;
         g_copies = 0;
         if (b.size() == 0) r = go(L::bind_front(Fob{6}));
         else if (b.size() == 1) {
-            if (r0) r = go(L::bind_front(Fob{6}, L::ref(b0)));
+            if (r0) r = go(L::bind_front(Fob{6}, L::ref(i0)));
             else r = bl ? go(L::bind_front(Fob{6}, b0)) : go(L::bind_front(Fob{6}, std::move(b0)));
-        } else if (r0 && r1) r = go(L::bind_front(Fob{6}, L::ref(b0), L::ref(b1)));
-        else if (r0) r = bl ? go(L::bind_front(Fob{6}, L::ref(b0), b1)) : go(L::bind_front(Fob{6}, L::ref(b0), std::move(b1)));
-        else if (r1) r = bl ? go(L::bind_front(Fob{6}, b0, L::ref(b1))) : go(L::bind_front(Fob{6}, std::move(b0), L::ref(b1)));
+        } else if (r0 && r1) r = go(L::bind_front(Fob{6}, L::ref(i0), L::ref(i1)));
+        else if (r0) r = bl ? go(L::bind_front(Fob{6}, L::ref(i0), b1)) : go(L::bind_front(Fob{6}, L::ref(i0), std::move(b1)));
+        else if (r1) r = bl ? go(L::bind_front(Fob{6}, b0, L::ref(i1))) : go(L::bind_front(Fob{6}, std::move(b0), L::ref(i1)));
         else r = bl ? go(L::bind_front(Fob{6}, b0, b1)) : go(L::bind_front(Fob{6}, std::move(b0), std::move(b1)));
     } else if (f == "fn") {
         if (b.size() + x.size() != 2) return "bad-op";
